@@ -660,7 +660,7 @@ const SYNTAX_ERR_LINES: &[&str] = &[
     "Bq :: blob { a: }\n",
 ];
 
-fn syntax_errors(t: &mut Tape) -> Built {
+fn syntax_errors(t: &mut Tape, avoid: bool) -> Built {
     let nfiles = 1 + t.below(3);
     let names = ["main", "other", "third"];
     let mut list: Vec<(&str, String)> = Vec::new();
@@ -677,7 +677,12 @@ fn syntax_errors(t: &mut Tape) -> Built {
         let k = if nfiles == 1 { 2 + t.below(4) } else { t.below(4) };
         let mut rest: Vec<String> = Vec::new();
         for _ in 0..k {
-            rest.push(t.pick(SYNTAX_ERR_LINES).to_string());
+            let mut l = *t.pick(SYNTAX_ERR_LINES);
+            if avoid && (l.starts_with("Dv ::") || l.starts_with("Df ::")) {
+                // known finding: a repeated member name is detected only now and then
+                l = "z :: 1 +\n";
+            }
+            rest.push(l.to_string());
             planted += 1;
         }
         rest.push(format!("ok{} :: {}\n", i, i));
@@ -853,9 +858,17 @@ fn mutate(t: &mut Tape, src: &str, other: &str, avoid: bool) -> String {
                 s = lines.join("\n");
             }
             1 => {
-                let a = t.below(lines.len());
-                let l = lines[a].clone();
-                lines.insert(a, l);
+                let mut a = t.below(lines.len());
+                if avoid {
+                    // duplicating an indented line can repeat a member of a blob/enum (known finding)
+                    while a > 0 && lines[a].starts_with(' ') {
+                        a -= 1;
+                    }
+                }
+                if !(avoid && lines[a].starts_with(' ')) {
+                    let l = lines[a].clone();
+                    lines.insert(a, l);
+                }
                 s = lines.join("\n");
             }
             2 => {
@@ -955,7 +968,7 @@ pub fn build_class(t: &mut Tape, avoid: bool, class: usize) -> Built {
         8 => similar_names(t),
         9 => duplicates(t),
         10 => type_errors(t),
-        11 => syntax_errors(t),
+        11 => syntax_errors(t, avoid),
         12 => missing_files(t),
         13 => import_errors(t),
         _ => corpus_mutation(t, avoid),
